@@ -126,7 +126,7 @@ def strings(tier, seed):
     return res
 
 
-@component(P, "grammar.round_trip", "bounded")
+@component((P, "C18", "C09"), "grammar.round_trip", "bounded")
 def round_trip(tier, seed):
     from picosvg.svg_types import SVGPath
 
